@@ -47,6 +47,13 @@ func c07Templates() map[string]gmodel.Entry {
 			{Indent: "    ", Account: "expenses:x", Sep: "  ", Amount: &gmodel.Amount{Num: gmodel.Num("5", "5"), Sym: "$", Side: gmodel.SideLeft}},
 			{Indent: "    ", Account: "assets:y", Sep: "  ", Amount: &gmodel.Amount{Num: gmodel.Num("4", "4"), Neg: true, Sym: "$", Side: gmodel.SideLeft}},
 		}}}
+	// a transaction whose last line is an indented comment line (with a tag)
+	t["tx-trailing-comment-line"] = gmodel.Entry{Kind: gmodel.EntryTx, Tx: &gmodel.Tx{
+		Date: gmodel.Date{Y: 2001, M: 7, D: 8, Sep: "-", Pad: true}, Gap: 1, HeaderKind: gmodel.HeaderDesc, Desc: "with receipt",
+		Postings: []gmodel.Posting{
+			{Indent: "    ", Account: "expenses:x", Sep: "  ", Amount: &gmodel.Amount{Num: gmodel.Num("5", "5"), Sym: "$", Side: gmodel.SideLeft}},
+			{Indent: "    ", Account: "assets:y", After: []gmodel.Comment{{Text: " receipt:r-1", Tags: []gmodel.Tag{{Name: "receipt", Value: "r-1"}}}}},
+		}}}
 	return t
 }
 
@@ -269,7 +276,7 @@ func checkC07(c *core.Ctx) {
 		names = append(names, k)
 	}
 	sort.Strings(names)
-	neighbours := []string{"tx", "account", "commodity-fmt", "tx-unbalanced"}
+	neighbours := []string{"tx", "account", "commodity-fmt", "tx-unbalanced", "tx-trailing-comment-line"}
 	if c.Thorough() {
 		neighbours = names
 	}
